@@ -26,7 +26,7 @@ func init() {
 		Run:        runC08,
 		Prefix:     c08Prefix,
 		Assumptions: []string{
-			"well-formedness as stated by the property: targets exist, _catch defined, flags in range, no self-move, every move cycle passes a HALT; one run in 80 of the generated kind is a two-node application whose nodes descend into each other, driven to and beyond 128 stack entries",
+			"well-formedness as stated by the property: targets exist, _catch defined, flags in range, no self-move, every move cycle passes a HALT; one run in 50 of the generated kind is a two-node application whose nodes descend into each other, driven to and beyond 128 stack entries",
 			"panics of the harness' own stubs are infrastructure errors, not violations",
 		},
 		Real:       append(append([]string{}, realAll...), "db/fs (compiled against the simulated os)", "db/postgres", "asm (assembling the examples)"),
@@ -106,7 +106,7 @@ func runC08(c *core.Ctx) *core.Outcome {
 		p.UpAtRoot = t.Chance(1, 3)
 		p.BigValues = t.Chance(1, 10)
 		p.CatchLoad = true
-		if t.Chance(1, 80) {
+		if t.Chance(1, 50) {
 			// a client that keeps descending: nothing in the property bounds the depth of a well-formed application
 			a = deepApp(t)
 			deepReq = t.Range(120, 140)
@@ -135,7 +135,7 @@ func runC08(c *core.Ctx) *core.Outcome {
 	cfg.SetSession = t.Chance(1, 2)
 	cfg.FinishAlways = t.Chance(1, 3)
 	cfg.First = t.Chance(1, 4)
-	if deepReq > 0 && t.Chance(1, 2) {
+	if deepReq > 0 && t.Chance(2, 3) {
 		cfg.First = true
 	}
 	cfg.ResetOnEmpty = t.Chance(1, 6)
@@ -168,8 +168,9 @@ func runC08(c *core.Ctx) *core.Outcome {
 				cur = p[len(p)-1]
 			}
 			in = genInput(t, a, cur, 6)
-			if i <= deepReq && !t.Chance(1, 40) {
-				in = []byte("1")
+			if i <= deepReq {
+				// the climb: descend, now and then stay or step back once - but never rewind, or the depth is never reached
+				in = [][]byte{[]byte("1"), []byte("5"), []byte("0")}[t.Weighted(60, 1, 1)]
 			}
 			if cfg.ResetOnEmpty && t.Chance(1, 4) {
 				in = []byte{}
@@ -177,7 +178,11 @@ func runC08(c *core.Ctx) *core.Outcome {
 			}
 		}
 		fresh := mode == 1 || (mode == 2 && t.Chance(1, 2))
-		if cfg.First && t.Chance(1, 8) {
+		ffChance := 8
+		if deepReq > 0 {
+			ffChance = 60 // every failure costs the climb a request
+		}
+		if cfg.First && t.Chance(1, ffChance) {
 			s.FailFirstNext = true
 		}
 		if cfg.First && deepReq > 0 {
@@ -194,6 +199,11 @@ func runC08(c *core.Ctx) *core.Outcome {
 		st := s.Request(in, fresh)
 		if s.FirstFailed > ff {
 			o.Faults["first_func_error"]++
+			if deepReq > 0 {
+				if p, _ := s.Position(); len(p) >= 126 {
+					o.Probes["first_func_error_at_126_or_more_entries"]++
+				}
+			}
 		}
 		o.Counts["requests"]++
 		if st.Fresh && i > 0 {
